@@ -5,7 +5,7 @@ CONSTANTS
   Dense = FALSE
   KeepStatus = FALSE
   RecheckAtApply = TRUE
-  RecheckISR = FALSE
+  RecheckISR = TRUE
   CountAll = FALSE
 POSTCONDITION Done
 CHECK_DEADLOCK FALSE
